@@ -71,6 +71,8 @@ def ub_subjects(tier, derive_use, miri=False):
         for lab, cfg in mode_sets(d.gapless):
             if cfg is None or (huge and lab == "inline"):
                 continue
+            if tier == "quick" and not miri and d.tag.get("family", "").startswith("F(") and d.repr in ("u8", "u128") and lab in ("auto", "inline", "range"):
+                continue    # quick: all six mode sets on i8/i64, the three table/match/plain sets on u8/u128
             b = dict(bounds)
             if big:
                 b.update(x1_depth=1, x2_extra=0, x2_cap=2, range_x1_depth=1, range_x2_extra=0, range_pair_step=977 if not huge else 40000003)
